@@ -66,17 +66,23 @@ Theorem width_irrelevant_roll_tuple : forall t rows,
 Proof. exact width_irrelevant_roll_tuple_proof. Qed.
 Print Assumptions width_irrelevant_roll_tuple.
 
-(* ---- getitem: (coords.astype(intp) - start) // step (D6 repaired by 0a2ad47: full statement, for
-        every index type, every step sign and magnitude) *)
-Theorem width_irrelevant_getitem : forall t start stop step c,
-  m_getitem (DInt t) start stop step c = m_getitem DInf start stop step c.
+(* ---- getitem, one sliced axis of extent n (D6 repaired by 0a2ad47: full statement, every index type,
+        every step sign and magnitude).  Two cases, as in the code: the identity shortcut (the entry is
+        the full slice (0, n, 1): the operand is returned, coordinates and dtype untouched) and the
+        coordinate map (coords.astype(intp) - start) // step (result coordinates are intp) *)
+Theorem width_irrelevant_getitem : forall t n start stop step c,
+  rmap tv (m_getitem (DInt t) n start stop step c) = rmap tv (m_getitem DInf n start stop step c) /\
+  (s_getitem_identity n start stop step = true ->
+     m_getitem (DInt t) n start stop step c = Ok (mkT (DInt t) c)) /\
+  (s_getitem_identity n start stop step = false ->
+     m_getitem (DInt t) n start stop step c = m_getitem DInf n start stop step c).
 Proof. exact width_irrelevant_getitem_proof. Qed.
 Print Assumptions width_irrelevant_getitem.
 
 Theorem getitem_exact : forall d n start stop step c,
   norm_slice n start step -> coords_in n c -> n < 2 ^ 63 -> - 2 ^ 63 <= step < 2 ^ 63 ->
-  m_getitem d start stop step c =
-  Ok (mkT (DInt i64) (map (fun x => (x - start) / step) (filter (sel_mask start stop step) c))).
+  rmap tv (m_getitem d n start stop step c) =
+  Ok (map (fun x => (x - start) / step) (filter (sel_mask start stop step) c)).
 Proof. exact getitem_exact_proof. Qed.
 Print Assumptions getitem_exact.
 
